@@ -118,6 +118,24 @@ def _copy_of(program: Program, recv: ClassInfo, f: FuncInfo, _memo: dict) -> Cop
                     and node.args[0].attr == "__dict__" and isinstance(node.args[0].value, ast.Name)
                     and node.args[0].value.id == selfname):
                 info.full_dict = True
+            # `new.__dict__.update(self.__dict__ | {name: copy(getattr(self, name)) for name in NAMES})`
+            a0 = node.args[0] if node.args else None
+            if (tgt_is_new_dict and isinstance(a0, ast.BinOp) and isinstance(a0.op, ast.BitOr) and isinstance(a0.left, ast.Attribute) and a0.left.attr == "__dict__"
+                    and isinstance(a0.left.value, ast.Name) and a0.left.value.id == selfname and isinstance(a0.right, ast.DictComp) and len(a0.right.generators) == 1):
+                dc = a0.right
+                g = dc.generators[0]
+                if (isinstance(g.target, ast.Name) and isinstance(dc.key, ast.Name) and dc.key.id == g.target.id and not g.ifs
+                        and _fresh_container_expr(dc.value, selfname, g.target.id)):
+                    names_ = _eval_names(program, recv, f, g.iter)
+                    if names_ is None and isinstance(g.iter, ast.Name):
+                        r_ = program.resolve_global(f.module, g.iter.id)
+                        if r_ and r_[0] == "const" and isinstance(r_[2], (ast.Tuple, ast.List)) and all(isinstance(x, ast.Constant) and isinstance(x.value, str) for x in r_[2].elts):
+                            names_ = {x.value for x in r_[2].elts}
+                    if names_ is not None:
+                        info.full_dict = True
+                        info.recopied |= names_
+                    else:
+                        info.unsupported = f"names re-copied by the dict merge in {f.qualname} are not resolvable: {ast.unparse(g.iter)[:60]}"
         if isinstance(node, ast.Assign):
             for t in node.targets:
                 if (isinstance(t, ast.Attribute) and isinstance(t.value, ast.Name) and t.value.id in newvars):
@@ -321,7 +339,9 @@ def _alias_none_guard(guards: tuple, program: Program | None = None, func: str =
     """one of the enclosing tests requires `<x>.alias is None` / `not <x>.alias`; a test that calls a predicate helper
     (`if self._rejoins_unaliased_table(join.item, ...)`) is read through the helper's returned expression"""
     def conj_of(t):
-        return t.values if isinstance(t, ast.BoolOp) and isinstance(t.op, ast.And) else [t]
+        if isinstance(t, ast.BoolOp) and isinstance(t.op, ast.And):
+            return [c for v in t.values for c in conj_of(v)]
+        return [t]
 
     def holds(t, depth=0) -> bool:
         for c in conj_of(t):
@@ -642,11 +662,11 @@ def check(program: Program, run: Run) -> None:
                         continue
                     attr = path[0]
                     row = table.setdefault(c.qualname, {}).setdefault(attr, {"recopied": ci.covers(program, c, attr), "mutated_by": set(), "rebound_by": set()})
-                    if len(path) == 1 and e.kind == "rebind":
+                    if len(path) == 1 and e.kind == "rebind" and attr != "*":
                         row["rebound_by"].add(f.name)
                         run.ob("C01/R1 rebinding write stays on the copy", subject, True, where=e.loc)
                         continue
-                    if len(path) == 1 and e.kind == "mutate":
+                    if len(path) == 1 and e.kind == "mutate" and attr != "*":
                         row["mutated_by"].add(f.name)
                         ok = ci.covers(program, c, attr)
                         run.ob("C01/R1 in-place write hits a re-copied container", subject, ok,
